@@ -101,7 +101,9 @@ OPS: Dict[str, Any] = {
     "exit": _d("exit"),
     "optimize": _d("optimize", how=st.sampled_from(["optimize", "slim", "minimize", "raise"])),
     "add_cons": _d("add_cons", name=st.integers(0, 3), rxns=st.lists(_k, min_size=1, max_size=2), coefs=st.lists(st.sampled_from([1, -1, 2]), min_size=2, max_size=2),
-                   b=st.sampled_from([(None, 5), (-5, None), (0, 0), (1, 1), (-10, 10)])),
+                   b=st.sampled_from([(None, 5), (-5, None), (0, 0), (1, 1), (-10, 10)]),
+                   # the constraint may be named after the reaction it caps (constraints and variables have separate names)
+                   like_rxn=st.sampled_from([False, False, False, True])),
     "add_var": _d("add_var", name=st.integers(0, 3), b=st.sampled_from([(0, None), (0, 10), (-5, 5), (None, 3)]), kind=st.sampled_from(["continuous", "continuous", "binary"])),
     "remove_cons": _d("remove_cons", what=st.sampled_from(["con", "var"]), name=st.integers(0, 3)),
     "medium": _d("medium", entries=st.lists(st.tuples(_k, st.sampled_from([0, 1, 10, 1000, 2.5])), max_size=3, unique_by=lambda t: t[0])),
@@ -655,6 +657,8 @@ class World:
         name = f"ucon{op['name']}"
         # a name that is already taken is attempted too: the call must raise and leave the problem usable
         rx = list(dict.fromkeys(self.pick(m.reactions, k) for k in op["rxns"]))
+        if op.get("like_rxn") and rx[0].id not in m.metabolites:
+            name = rx[0].id
         coefs, expr = [], 0
         for r, c in zip(rx, op["coefs"]):
             expr = expr + c * r.flux_expression
